@@ -36,6 +36,22 @@ def _base_configs():
     gbp = dict(name="beta", gamma=0.05, site="grain boundaries")
     c.append(dict(tag="reused-model-gb-energy-lowered", phases=[gbp], D=1e-16, gb=0.02, prelude=dict(gb=0.06, span=2.0), calls=[(100.0, 0.02)], iter="euler"))
     c.append(dict(tag="reused-model-gb-energy-raised", phases=[dict(gbp, site="grain edges")], D=1e-16, gb=0.06, prelude=dict(gb=0.0), calls=[(100.0, 0.02)], iter="rk4"))
+    # no diffusion inside the precipitates (solute content integrated over the history) with a size-independent precipitate composition:
+    # the content must still be the composition-weighted third moment, with either iterator and over several solve calls
+    c.append(dict(tag="noninf-constant-xbeta-rk4", phases=[dict(ph, infinite=False)], cb=0.0, D=1e-16, calls=[(40.0, 0.02), (60.0, 0.02)], iter="rk4"))
+    c.append(dict(tag="noninf-constant-xbeta-euler", phases=[dict(ph, infinite=False)], cb=0.0, D=1e-16, calls=[(40.0, 0.02), (60.0, 0.02)], iter="euler"))
+    c.append(dict(tag="inf-constant-xbeta-rk4", phases=[ph], cb=0.0, D=1e-16, calls=[(100.0, 0.02)], iter="rk4"))
+    # size classes set for all phases in one call (the usual call): every phase keeps its own distribution
+    g2 = dict(name="gamma", gamma=0.06, xe0=0.004, K=1.2e5, xb=0.3, VmB=1.2e-5)
+    c.append(dict(tag="two-phases-classes-set-for-all", phases=[ph, g2], D=1e-16, pbm=(1e-10, 1e-9, 30, 12, 36, True), calls=[(60.0, 0.02)], iter="euler"))
+    c.append(dict(tag="two-phases-classes-set-for-all-rk4", phases=[ph, g2], D=1e-16, pbm=(1e-10, 2e-9, 24, 12, 60, False), calls=[(30.0, 0.02), (30.0, 0.02)], iter="rk4"))
+    c.append(dict(tag="multi-two-phases-classes-set-for-all", multi=True, phases=[ph, dict(name="gamma", gamma=0.055, xe0=(0.005, 0.004), xb=(0.15, 0.2), w=(0.6, 1.0))],
+                  D=1e-16, pbm=(1e-10, 1e-9, 30, 12, 36, True), calls=[(60.0, 0.02)], iter="euler"))
+    # heated beyond the stability limit of the precipitate (no planar equilibrium at all) and cooled back, impingement rate as in multicomponent systems
+    c.append(dict(tag="beyond-stability-and-back-beta2", phases=[ph], D=1e-15, se=3e-3, beta=2, temp=("array", [0, H(0.02), H(0.04), H(0.06)], [1000, 1000, 1100, 1000]),
+                  calls=[(0.08, 0.02)], iter="euler"))
+    c.append(dict(tag="beyond-stability-and-back-rk4", phases=[ph], D=1e-15, se=3e-3, temp=("array", [0, H(0.02), H(0.04), H(0.06)], [1000, 1000, 1100, 1000]),
+                  calls=[(0.08, 0.02)], iter="rk4"))
     # elastic strain energy (constant per precipitate volume): taken off the driving force once, in the binary and in the multicomponent path
     c.append(dict(tag="binary-strain-energy", phases=[dict(ph, strainE=3e7)], D=1e-16, calls=[(100.0, 0.02)], iter="euler"))
     c.append(dict(tag="multi-strain-energy", multi=True, phases=[dict(ph, strainE=3e7)], calls=[(0.6, 0.02), (0.6, 0.02)], iter="euler"))
@@ -143,7 +159,14 @@ def repo_digest():
 def _one(cfg):
     from . import kwn_drv as K
     res = K.run(cfg)
-    ev = K.project(cfg, res)
+    try:
+        ev = K.project(cfg, res)
+    except Exception as ex:  # noqa
+        # reading the model's own parameters for the projection failed (e.g. a validation error of the library): an internal error of
+        # the run, not of the machinery -- reported through the same clause as an exception during the run
+        ev = [{"e": "init", "P": len(cfg.get("phases", [1])), "E": 1, "iter": cfg.get("iter", "euler"), "maxdT": 1000, "T0": 0, "isothermal": True,
+               "minDens": 0, "lens0": []}, {"e": "exception", "msg": "projection: %s: %s" % (type(ex).__name__, str(ex)[:200])}]
+        res["error"] = res["error"] or ("%s: %s" % (type(ex).__name__, str(ex)[:200]))
     info = {"steps": len(res["obs"].snaps), "error": res["error"], "tb": res.get("tb"), "fired": list(res["therm"].faults.fired)}
     return ev, info
 
